@@ -5,6 +5,15 @@ CHECKS = {
  "C01": dict(technique="runtime monitoring: stream oracle with unique PRF content over generated route lists/handler chains/segmentations on the real App; poison-on-release hook; race detector in the thorough tier",
              text="Held on every generated execution: each consumer's bytes were compared with the exact slice of the client's stream; exploration of configurations x streams x segmentations, not a proof.",
              note="Trusts the scripted transport (vnet) to behave like TCP for Read/deadline/half-close; only shipped wrapping handlers are composed.", ref="3/C01"),
+ "C02": dict(technique="runtime monitoring: trace checker (rules R1-R6 over recorded matcher/handler/fallback events) with exhaustive small-scope enumeration of route lists x streams x segmentations plus seeded random larger instances",
+             text="Exhaustive within the stated bounded scope (every route list over the alphabets, every stream over {a,b} up to length 4, every composition) and sampled beyond it; each execution's event trace is judged by rules derived from the statement with order-insensitive matcher-set evaluation.",
+             note="Scripted matchers are N-monotone pure predicates; arrival schedule is one segment per prefetch round; timeouts are out of scope here (C05).", ref="3/C02"),
+ "C04": dict(technique="runtime monitoring: crash monitor (recover + child-process fatal attribution via input journal) and per-call allocation monitor (MemStats.TotalAlloc delta) over random, all-prefix and boundary-aware mutated inputs for every matcher configuration and parsing handler; RLIMIT_AS sanitizer",
+             text="Held on every generated input: no panic/fatal, allocation per call stayed under 256 KiB (observed maxima are in the evidence). Sampling of an unbounded input space, biased to length/terminator boundary values.",
+             note="tls handler parsing (crypto/tls) not driven; quic sampled thinly; single 32-bit magic values outside the boundary set can be missed.", ref="3/C04"),
+ "C06": dict(technique="runtime monitoring: verdict-lattice checker over every prefix of generated streams (purity P1-P3 on counting connections, N-monotonicity P4, fragment-safety P5)",
+             text="For every generated stream and every prefix length the real matcher was evaluated on fresh preloaded connections; the five lattice rules were checked on all of them. One genuine fragmentation defect (winbox multi-chunk) is listed as a known finding; the http one was repaired.",
+             note="Seeds are hand-written well-formed messages per matcher plus boundary mutations; time-dependent filters are pinned.", ref="3/C06"),
 }
 NOT_YET = {}
 ALL = ["C%02d" % i for i in range(1, 19)]
